@@ -369,14 +369,15 @@ def h5(prog, rep):
               function=de.name, construct="delete-bidirectional")
     # the upward move is the element's own: it is swapped with its parent, and the sift continues from where it went
     par = parent_of(rc)
+    X = de.expand
     for w in sw:
-        ok2 = {norm(w.arg(1)), norm(w.arg(2))} == {rc, par}
+        ok2 = {X(norm(w.arg(1))), X(norm(w.arg(2)))} == {rc, par}
         rep.check(ok2, "H4-index", "ptrheap_delete swaps the moved element with its parent", w.where,
                   "swap(%s, %s): expected positions rc and (rc - 1) / 2" % (show(norm(w.arg(1))), show(norm(w.arg(2)))), function=de.name, construct="delete-swap")
     for c in up:
         follows = [w for w in sw if de.dominates(w, c)]
         want = par if follows else rc
-        rep.check(norm(c.arg(1)) == want, "H4-index", "ptrheap_delete continues the sift-up from the position the element now has", c.where,
+        rep.check(X(norm(c.arg(1))) == want, "H4-index", "ptrheap_delete continues the sift-up from the position the element now has", c.where,
                   "heapifyup from %s; the element is at %s" % (show(norm(c.arg(1))), show(want)), function=de.name, construct="delete-continue")
 
 
